@@ -155,6 +155,8 @@ def gen_case(rng: random.Random, algo: str, T: int, E: int, ids, exact: bool, ve
         nvb = None
     case = {"algo": algo, "ids": ids, "T": T, "E": E, "vec": bool(vec or E > 1), "gamma": g, "lam": l,
             "akind": rng.choice(["box", "box", "discrete"]), "share": bool(rng.random() < 0.5), "exact": exact,
+            # how the agent comes by gamma / lambda (constructor, or changed after construction)
+            "hp_route": rng.choice(["ctor"] * 6 + HP_ROUTES),
             # PPO: flat Box, or Dict / Tuple with a Box member and a Discrete (scalar) member
             "okind": rng.choice(["vector", "vector", "dict", "tuple"]) if algo == "PPO" and vec else "vector",
             "nvb": nvb, "rdtype": rng.choice(["f64", "f64", "f32"]), "seed": rng.randrange(1 << 30),
@@ -203,30 +205,71 @@ def has_boundary(case) -> bool:
 
 
 # ----------------------------------------------------------------------------- real agents and rollouts
-def build_agent(case):
+HP_ROUTES = ["setattr", "clone", "checkpoint", "mutation"]
+HP_DECOY = (0.875, 0.625)           # gamma, lambda the agent is constructed with when they are changed afterwards
+
+
+def _construct(case, g: float, l: float, hp_config=None):
     import agents
-    g, l = float(Fr(case["gamma"])), float(Fr(case["lam"]))
     if case["algo"] == "PPO" and case.get("okind", "vector") != "vector":
         from agilerl.algorithms import PPO
         agents.seed_all(case["seed"])
-        ag = PPO(multi_obs_space(case["okind"]), agents.act_space(case["akind"]), index=0,
-                 net_config=copy.deepcopy(agents.default_net_config("PPO", "dict")), batch_size=16, device="cpu",
-                 accelerator=None, learn_step=8, update_epochs=1, share_encoders=case["share"], gamma=g, gae_lambda=l)
-        critics = [ag.critic]
-    elif case["algo"] == "PPO":
-        ag = agents.build("PPO", "vector", seed=case["seed"], share_encoders=case["share"],
-                          action_kind=case["akind"], gamma=g, gae_lambda=l, batch_size=16, update_epochs=1)
-        critics = [ag.critic]
+        return PPO(multi_obs_space(case["okind"]), agents.act_space(case["akind"]), index=0, hp_config=hp_config,
+                   net_config=copy.deepcopy(agents.default_net_config("PPO", "dict")), batch_size=16, device="cpu",
+                   accelerator=None, learn_step=8, update_epochs=1, share_encoders=case["share"], gamma=g, gae_lambda=l)
+    if case["algo"] == "PPO":
+        return agents.build("PPO", "vector", seed=case["seed"], share_encoders=case["share"], hp_config=hp_config,
+                            action_kind=case["akind"], gamma=g, gae_lambda=l, batch_size=16, update_epochs=1)
+    from agilerl.algorithms import IPPO
+    ids = case["ids"]
+    obs = [agents.obs_space("vector") for _ in ids]
+    act = [agents.act_space(case["akind"], 1 if a.startswith("other") else 0) for a in ids]
+    agents.seed_all(case["seed"])
+    return IPPO(observation_spaces=obs, action_spaces=act, agent_ids=list(ids), hp_config=hp_config,
+                net_config=agents.default_net_config("IPPO", "vector"), batch_size=16, device="cpu",
+                accelerator=None, learn_step=8, update_epochs=1, gamma=g, gae_lambda=l)
+
+
+def build_agent(case):
+    """the agent that will learn.  `hp_route` says how it came by its gamma / lambda: given to the constructor
+    ("ctor"), or constructed with other values and then changed by plain assignment ("setattr"), assignment +
+    clone(), assignment + save_checkpoint/load_checkpoint into a new agent, or an RL-hyper-parameter mutation of
+    gae_lambda.  What counts for the estimates is the agent's CURRENT gamma / gae_lambda (read by the caller)."""
+    g, l = float(Fr(case["gamma"])), float(Fr(case["lam"]))
+    route = case.get("hp_route", "ctor")
+    if route == "ctor":
+        ag = _construct(case, g, l)
+    elif route == "mutation":
+        from agilerl.algorithms.core.registry import HyperparameterConfig, RLParameter
+        from agilerl.hpo.mutation import Mutations
+        ag = _construct(case, g, l, HyperparameterConfig(gae_lambda=RLParameter(min=0.05, max=1.0)))
+        try:
+            mut = Mutations(no_mutation=0, architecture=0, new_layer_prob=0.5, parameters=0, activation=0, rl_hp=1,
+                            mutation_sd=0.1, rand_seed=case["seed"] % (2 ** 31), device="cpu")
+            ag = mut.mutation([ag])[0]
+        except Exception:                                   # noqa: BLE001 - mutation machinery is C06's subject
+            ag.gae_lambda = min(1.0, l * 0.75 + 0.125)
     else:
-        from agilerl.algorithms import IPPO
-        ids = case["ids"]
-        obs = [agents.obs_space("vector") for _ in ids]
-        act = [agents.act_space(case["akind"], 1 if a.startswith("other") else 0) for a in ids]
-        agents.seed_all(case["seed"])
-        ag = IPPO(observation_spaces=obs, action_spaces=act, agent_ids=list(ids),
-                  net_config=agents.default_net_config("IPPO", "vector"), batch_size=16, device="cpu",
-                  accelerator=None, learn_step=8, update_epochs=1, gamma=g, gae_lambda=l)
-        critics = list(ag.critics)
+        ag = _construct(case, *HP_DECOY)
+        ag.gamma, ag.gae_lambda = g, l
+        try:
+            if route == "clone":
+                ag = ag.clone()
+            elif route == "checkpoint":
+                import os
+                import tempfile
+                fd, path = tempfile.mkstemp(suffix=".pt", prefix="c17_")
+                os.close(fd)
+                try:
+                    ag.save_checkpoint(path)
+                    fresh = _construct(case, *HP_DECOY)
+                    fresh.load_checkpoint(path)
+                    ag = fresh
+                finally:
+                    os.unlink(path)
+        except Exception:                                   # noqa: BLE001 - clone / checkpoint are C01 / C07's subject
+            pass
+    critics = [ag.critic] if case["algo"] == "PPO" else list(ag.critics)
     if case["exact"]:
         b = float(Fr(case["nvb"]))
         for cr in critics:
@@ -337,6 +380,7 @@ def run_learn(case, *, next_shift: float = 0.0):
     agent = build_agent(case)
     roll = make_rollout(case, next_shift)
     boot, roll_path = critic_values(agent, case, roll)
+    boot["__hp__"] = (Fr(float(agent.gamma)), Fr(float(agent.gae_lambda)))     # the agent's CURRENT values
     vh.clear()
     random.seed(case["seed"]), np.random.seed(case["seed"] % (2 ** 32)), torch.manual_seed(case["seed"])
     try:
@@ -375,7 +419,7 @@ def analyse_group(case, gid, members, gae, rows, boot, roll_path):
     T, E, ippo = case["T"], case["E"], case["algo"] == "IPPO"
     A = len(members)
     C, N = A * E, A * T * E
-    gamma, lam = Fr(case["gamma"]), Fr(case["lam"])
+    gamma, lam = boot.get("__hp__", (Fr(case["gamma"]), Fr(case["lam"])))
     problems: list[str] = []
     gl = {a: case["ids"].index(a) for a in members}        # global agent index (in the provenance codes)
 
@@ -452,8 +496,10 @@ def analyse_group(case, gid, members, gae, rows, boot, roll_path):
         if bad:
             t, c = bad[0]
             problems.append(f"[recursion] group {gid}: {nm} of agent {members[c // E]} step {t} env {c % E} is {got[t][c]}, the "
-                            f"recursion gives {float(want[t][c])} = {want[t][c]} ({len(bad)} of {T * C} differ; "
-                            f"gamma={case['gamma']} lambda={case['lam']})")
+                            f"recursion gives {float(want[t][c])}"
+                            + (f" = {want[t][c]}" if want[t][c].denominator < 10 ** 6 else "") + f" ({len(bad)} of {T * C} differ; "
+                            f"agent.gamma={float(gamma):g} agent.gae_lambda={float(lam):g}, set by "
+                            f"{case.get('hp_route', 'ctor')})")
 
     # ---- model ops and the implementation's lines
     fl = lambda m: " ".join(frac(x) for row in m for x in row)
@@ -692,6 +738,7 @@ def case_tags(case):
     A = max(len(m) for _, m in groups_of(case))
     t = [f"algo-{case['algo']}", f"T-{case['T']}", f"E-{case['E']}", f"shared-{A}", f"act-{case['akind']}",
          "exact" if case["exact"] else "float", "vec" if case["vec"] else "unvec", f"obs-{case.get('okind', 'vector')}",
+         f"hp-{case.get('hp_route', 'ctor')}",
          f"gl-{case['gamma']},{case['lam']}"]
     if any(m != sorted(m) for _, m in groups_of(case)):
         t.append("group-order-not-lexicographic")
@@ -811,17 +858,27 @@ def probe_bootstrap(chk: Check, rng: random.Random, n_learn: int, report: bool =
 
 # ----------------------------------------------------------------------------- loop-level suite
 # The rollouts learn() receives are built by the training loops: run the REAL train_on_policy /
-# train_multi_agent_on_policy on scripted environments that keep their own episode log, and hold what
-# reaches learn() (via the recorder) against that log.
+# train_multi_agent_on_policy on scripted environments that keep their own log of everything they emitted
+# and received, and hold the experiences handed to learn() (the loop's own tuple, seen by wrapping
+# agent.learn, and the recorder's records) against that log.
 END_KINDS = ["term", "trunc", "both"]
 LOOP_GUARD_S = 90
+BOX_CLIP = (-0.125, 0.125)          # narrow bounds: nearly every sampled component is clipped
+BOX_SQUASH = (-2.0, 3.0)            # squash_output with bounds other than [-1, 1]
 
 
 class _Script:
-    """episode schedule of one sub-environment: a cyclic list of (length, kind of ending)"""
+    """episode schedule of one sub-environment: a cyclic list of [length, kind of ending(, per-agent head
+    starts)]: agent i of the sub-environment is done `offs[i]` steps before the episode ends (reported as
+    terminated from then on, like a killed agent), the sub-environment is over when its episode ends"""
 
-    def __init__(self, sched):
-        self.sched = [(max(1, int(n)), str(k)) for n, k in sched]
+    def __init__(self, sched, n_agents: int = 1):
+        self.sched = []
+        for ent in sched:
+            n, kind = max(1, int(ent[0])), str(ent[1])
+            offs = [int(x) for x in (ent[2] if len(ent) > 2 else [])]
+            offs = (offs + [0] * n_agents)[:n_agents]
+            self.sched.append((n, kind, [min(max(0, o), n - 1) for o in offs]))
         self.i = 0          # schedule entry of the running episode
         self.k = 0          # steps taken in the running episode
         self.ep = 0         # episodes started
@@ -834,36 +891,49 @@ class _Script:
         self.ep += 1
 
     def advance(self):
-        """one step; returns (ended, terminated, truncated)"""
+        """one step; returns (episode ended, [terminated per agent], [truncated per agent])"""
         self.k += 1
-        n, kind = self.sched[self.i % len(self.sched)]
+        n, kind, offs = self.sched[self.i % len(self.sched)]
         if self.k < n:
-            return False, False, False
+            dead = [self.k >= n - o for o in offs]
+            return False, dead, [False] * len(offs)
         self.i += 1
         self.k = 0
-        return True, kind in ("term", "both"), kind in ("trunc", "both")
+        return True, [kind in ("term", "both")] * len(offs), [kind in ("trunc", "both")] * len(offs)
 
 
 def _loop_reward(g: int, e: int, ai: int) -> float:
     return ((g * 7 + e * 3 + ai * 5) % 17 - 8) / 4.0
 
 
+def _loop_act_space(akind: str, other: bool = False):
+    from gymnasium import spaces
+    if akind == "discrete":
+        return spaces.Discrete(2 if other else 3)
+    lo, hi = BOX_SQUASH if akind == "box-squash" else BOX_CLIP
+    return spaces.Box(lo, hi, (3 if other else 2,), np.float32)
+
+
 class ScriptVecEnv:
     """vectorised single-agent env (auto-reset inside, as gymnasium vector envs: the observation returned
     with an episode end is already the first one of the next episode); obs = [env, episode, step, clock]"""
 
-    def __init__(self, schedules):
+    def __init__(self, schedules, akind: str = "discrete"):
         from gymnasium import spaces
         self.scripts = [_Script(s) for s in schedules]
         self.num_envs = len(self.scripts)
         self.single_observation_space = spaces.Box(-1.0, 1.0, (4,), np.float32)
-        self.single_action_space = spaces.Discrete(3)
+        self.single_action_space = _loop_act_space(akind)
         self.observation_space, self.action_space = self.single_observation_space, self.single_action_space
+        self.possible_agents = ["_"]
         self.g = 0
         self.log: list[dict] = []
+        self._last = None
 
     def _obs(self):
-        return np.array([[e, s.ep % 50, s.k, self.g % 50] for e, s in enumerate(self.scripts)], dtype=np.float32) / 8
+        self._last = np.array([[e, s.ep % 50, s.k, self.g % 50] for e, s in enumerate(self.scripts)],
+                              dtype=np.float32) / 8
+        return self._last.copy()
 
     def reset(self, seed=None, options=None):
         for s in self.scripts:
@@ -872,13 +942,18 @@ class ScriptVecEnv:
 
     def step(self, action):
         self.g += 1
-        ended, term, trunc = zip(*(s.advance() for s in self.scripts))
-        for s, x in zip(self.scripts, ended):
-            if x:
+        pre = self._last.copy()
+        res = [s.advance() for s in self.scripts]
+        for s, (ended, _, _) in zip(self.scripts, res):
+            if ended:
                 s.ep += 1
+        term = [bool(r[1][0]) for r in res]
+        trunc = [bool(r[2][0]) for r in res]
         rew = np.array([_loop_reward(self.g, e, 0) for e in range(self.num_envs)], dtype=np.float64)
-        self.log.append({"ended": list(ended), "term": list(term), "trunc": list(trunc),
-                         "reward": {"_": rew.tolist()}})
+        self.log.append({"over": [r[0] for r in res], "term": {"_": term}, "trunc": {"_": trunc},
+                         "done": {"_": [int(a or b) for a, b in zip(term, trunc)]},
+                         "reward": {"_": rew.tolist()}, "obs": {"_": pre},
+                         "recv": {"_": np.array(action, copy=True)}})
         return self._obs(), rew, np.array(term), np.array(trunc), {}
 
     def close(self):
@@ -887,17 +962,19 @@ class ScriptVecEnv:
 
 class ScriptParallelEnv:
     """PettingZoo-style parallel env.  vectorised=True: has `num_envs`, arrays with a leading env dimension and
-    auto-reset inside; vectorised=False: a plain env (no `num_envs`), scalars, the training loop has to reset it.
-    All agents of a sub-environment finish together."""
+    auto-reset inside; vectorised=False: a plain env (no `num_envs`), scalars, the training loop has to reset it
+    once every agent is done.  Agents may be done before their team-mates (see _Script); a finished agent keeps
+    being reported (terminated=True) until the sub-environment's episode is over."""
 
     metadata = {"name": "c17_script_parallel"}
 
-    def __init__(self, ids, schedules, vectorised: bool):
+    def __init__(self, ids, schedules, vectorised: bool, akind: str = "discrete"):
         from gymnasium import spaces
         self.possible_agents = list(ids)
         self.agents = list(ids)
-        self.scripts = [_Script(s) for s in schedules]
+        self.scripts = [_Script(s, len(ids)) for s in schedules]
         self.vectorised = bool(vectorised)
+        self.akind = akind
         if vectorised:
             self.num_envs = len(self.scripts)
         self._obs_space = spaces.Box(-1.0, 1.0, (4,), np.float32)
@@ -905,21 +982,20 @@ class ScriptParallelEnv:
         self.log: list[dict] = []
         self.stepped_after_end = 0
         self._over = False
+        self._last = None
 
     def observation_space(self, agent):
         return self._obs_space
 
     def action_space(self, agent):
-        import agents as _a
-        return _a.act_space("discrete", 1 if agent.startswith("other") else 0)
+        return _loop_act_space(self.akind, agent.startswith("other"))
 
     def _obs(self):
-        out = {}
+        self._last = {}
         for ai, a in enumerate(self.possible_agents):
-            o = np.array([[e + 4 * ai, s.ep % 50, s.k, self.g % 50] for e, s in enumerate(self.scripts)],
-                         dtype=np.float32) / 8
-            out[a] = o if self.vectorised else o[0]
-        return out
+            self._last[a] = np.array([[e + 4 * ai, s.ep % 50, s.k, self.g % 50] for e, s in enumerate(self.scripts)],
+                                     dtype=np.float32) / 8
+        return {a: (o.copy() if self.vectorised else o[0].copy()) for a, o in self._last.items()}
 
     def reset(self, seed=None, options=None):
         for s in self.scripts:
@@ -934,32 +1010,42 @@ class ScriptParallelEnv:
             for s in self.scripts:
                 s.ep += 1
         self.g += 1
-        ended, term, trunc = zip(*(s.advance() for s in self.scripts))
+        pre = {a: o.copy() for a, o in self._last.items()}
+        res = [s.advance() for s in self.scripts]
         n = len(self.scripts)
-        rew = {a: [_loop_reward(self.g, e, ai) for e in range(n)] for ai, a in enumerate(self.possible_agents)}
-        self.log.append({"ended": list(ended), "term": list(term), "trunc": list(trunc), "reward": rew})
+        ids = self.possible_agents
+        term = {a: [bool(res[e][1][ai]) for e in range(n)] for ai, a in enumerate(ids)}
+        trunc = {a: [bool(res[e][2][ai]) for e in range(n)] for ai, a in enumerate(ids)}
+        rew = {a: [_loop_reward(self.g, e, ai) for e in range(n)] for ai, a in enumerate(ids)}
+        self.log.append({"over": [r[0] for r in res], "term": term, "trunc": trunc,
+                         "done": {a: [int(x or y) for x, y in zip(term[a], trunc[a])] for a in ids},
+                         "reward": rew, "obs": pre,
+                         "recv": {a: np.array(actions[a], copy=True) for a in ids if a in actions}})
         if self.vectorised:
-            for s, x in zip(self.scripts, ended):
-                if x:
+            for s, r in zip(self.scripts, res):
+                if r[0]:
                     s.ep += 1
-            r = {a: np.array(v, dtype=np.float64) for a, v in rew.items()}
-            te = {a: np.array(term) for a in self.possible_agents}
-            tr = {a: np.array(trunc) for a in self.possible_agents}
+            r_ = {a: np.array(v, dtype=np.float64) for a, v in rew.items()}
+            te = {a: np.array(term[a]) for a in ids}
+            tr = {a: np.array(trunc[a]) for a in ids}
         else:
-            self._over = bool(ended[0])
-            r = {a: float(v[0]) for a, v in rew.items()}
-            te = {a: bool(term[0]) for a in self.possible_agents}
-            tr = {a: bool(trunc[0]) for a in self.possible_agents}
-        return self._obs(), r, te, tr, {a: {} for a in self.possible_agents}
+            self._over = bool(res[0][0])
+            r_ = {a: float(v[0]) for a, v in rew.items()}
+            te = {a: bool(term[a][0]) for a in ids}
+            tr = {a: bool(trunc[a][0]) for a in ids}
+        return self._obs(), r_, te, tr, {a: {} for a in ids}
 
     def close(self):
         pass
 
 
-def gen_loop_case(rng: random.Random, algo: str, vec: bool, T: int, E: int, R: int, ids=None):
+def gen_loop_case(rng: random.Random, algo: str, vec: bool, T: int, E: int, R: int, ids=None,
+                  akind: str = "discrete", stagger: bool = False):
     """schedules are built so that episodes end by termination, by truncation only and by both, strictly inside
-    rollouts and exactly on their last step"""
+    rollouts and exactly on their last step; with `stagger` the agents of a sub-environment are done at
+    different steps"""
     E = E if vec else 1
+    n_agents = len(ids) if algo == "IPPO" else 1
     sched = []
     for e in range(E):
         body = [[rng.randint(1, max(1, T - 1)), rng.choice(END_KINDS)] for _ in range(3 * R + 4)]
@@ -969,10 +1055,20 @@ def gen_loop_case(rng: random.Random, algo: str, vec: bool, T: int, E: int, R: i
             head = [[T, "trunc"], [max(1, T - 2), "term"]]
         else:
             head = [[rng.randint(1, T), rng.choice(END_KINDS)]]
+        if stagger and n_agents > 1:
+            head = [[T - 1, "term"], [3, "trunc"]] + head if e == 0 and T >= 3 else head
+            for ent in head + body:
+                offs = [rng.randint(0, ent[0] - 1) for _ in range(n_agents)]
+                last = rng.randrange(n_agents)
+                offs[last] = 0                              # the episode lasts until its last agent is done
+                if ent[0] >= 2 and not any(offs):
+                    offs[(last + 1) % n_agents] = rng.randint(1, ent[0] - 1)
+                ent.append(offs)
         sched.append(head + body)
     g, l = rng.choice([("9/10", "4/5"), ("99/100", "19/20"), ("1/2", "3/4"), ("1", "1")])
     return {"suite": "loop", "algo": algo, "vec": bool(vec), "T": T, "E": E, "R": R,
             "ids": list(ids) if algo == "IPPO" else ["_"], "schedules": sched, "gamma": g, "lam": l,
+            "akind": akind, "stagger": bool(stagger and n_agents > 1),
             "share": bool(rng.random() < 0.5), "seed": rng.randrange(1 << 30)}
 
 
@@ -1007,27 +1103,28 @@ def _loop_groups(lc):
     return groups_of({"algo": lc["algo"], "ids": lc["ids"]})
 
 
-def _truth(env, start, T, e):
-    """(k, ended flags) of env column e in the T steps from log position `start`; k = first step index that
-    belongs to a new episode (T when the episode ends on the last step, None without an end)"""
-    ended = [bool(env.log[start + t]["ended"][e]) for t in range(T)]
-    ks = [t + 1 for t in range(T) if ended[t]]
-    return (ks[0] if ks else None), ended
+def _truth(env, start, T, a, e):
+    """(k, done flags) of agent a in sub-environment e over the T steps from log position `start`, as the
+    environment emitted them (terminated | truncated for that agent); k = first step index that no longer
+    belongs to the episode running at the start (T when it ends on the last step, None without an end)"""
+    flags = [int(env.log[start + t]["done"][a][e]) for t in range(T)]
+    ks = [t + 1 for t in range(T) if flags[t]]
+    return (ks[0] if ks else None), flags
 
 
 def _perturb_loop_experiences(lc, experiences, env, start, T):
-    """copy of the experiences with rewards/values (and next_state) replaced from the TRUE episode boundary of
-    every column on; flags are left exactly as the loop produced them"""
+    """copy of the experiences with rewards/values (and next_state) replaced from the TRUE boundary of every
+    (agent, env) column on; flags are left exactly as the loop produced them"""
     ex = copy.deepcopy(experiences)
     E = lc["E"]
     keys = [None] if lc["algo"] == "PPO" else lc["ids"]
     claims = []
-    for e in range(E):
-        k, _ = _truth(env, start, T, e)
-        if k is None:
-            continue
-        claims.append((e, k))
-        for a in keys:
+    for a in keys:
+        for e in range(E):
+            k, _ = _truth(env, start, T, "_" if a is None else a, e)
+            if k is None:
+                continue
+            claims.append(("_" if a is None else a, e, k))
             rew = ex[3] if a is None else ex[3][a]
             val = ex[5] if a is None else ex[5][a]
             for t in range(k, T):
@@ -1038,8 +1135,7 @@ def _perturb_loop_experiences(lc, experiences, env, start, T):
                     rew[t][e] += 1.5
                 val[t] = np.array(val[t], copy=True)
                 val[t][e] += 2.25
-            ns = ex[6] if a is None else ex[6][a]
-            ns = np.array(ns, copy=True)
+            ns = np.array(ex[6] if a is None else ex[6][a], copy=True)
             if ns.ndim == 1:
                 ns += 3.0
             else:
@@ -1051,46 +1147,132 @@ def _perturb_loop_experiences(lc, experiences, env, start, T):
     return ex, claims
 
 
+def _reevaluate(lc, agent, experiences, env, start, T):
+    """before any update: (a) every stored old log-prob is the log-prob, under the policy that collected the
+    rollout, of the STORED action at the STORED observation; (c) stored observations are the ones the
+    environment emitted for that agent/env/step and the stored values are the critic's values of them.
+    Returns (problems, stats)."""
+    problems, stats = [], {"clipped": 0, "samples": 0}
+    ppo = lc["algo"] == "PPO"
+    E = lc["E"]
+    S, A_, L_, _, _, V_ = experiences[:6]
+    grp = _loop_groups(lc)
+
+    def first(kind, text):
+        if not any(p.startswith(kind) for p in problems):
+            problems.append(f"{kind} {text}")
+
+    with torch.no_grad():
+        for gi, (gid, members) in enumerate(grp):
+            for a in members:
+                sa, aa, la, va = (S, A_, L_, V_) if ppo else (S[a], A_[a], L_[a], V_[a])
+                for t in range(T):
+                    emitted = env.log[start + t]["obs"][a]
+                    obs = np.asarray(sa[t], dtype=np.float32)
+                    if not np.array_equal(obs.reshape(E, -1), emitted.reshape(E, -1)):
+                        first("[loop-inputs]", f"the observation stored for agent {a} at step {t} of the rollout is "
+                              f"{obs.reshape(E, -1).tolist()}, the environment emitted {emitted.reshape(E, -1).tolist()}")
+                        continue
+                    act = np.asarray(aa[t])
+                    recv = np.asarray(env.log[start + t]["recv"].get(a))
+                    stats["samples"] += E
+                    if lc["akind"] != "discrete" and recv.shape == act.shape:
+                        stats["clipped"] += int((np.abs(recv - act).reshape(E, -1).max(axis=1) > 1e-7).sum())
+                    if ppo:
+                        lp, _, v = agent.evaluate_actions(obs, torch.as_tensor(act))
+                    else:
+                        from agilerl.utils.algo_utils import preprocess_observation
+                        actor, critic = agent.actors[gi], agent.critics[gi]
+                        actor.eval(), critic.eval()
+                        o = preprocess_observation(obs, agent.observation_space[a], agent.device, agent.normalize_images)
+                        actor(o)
+                        at = torch.as_tensor(act).reshape(E, -1)
+                        if lc["akind"] == "discrete":
+                            at = at[:, 0]
+                        lp, v = actor.action_log_prob(at), critic(o)
+                    lp = np.asarray(lp, dtype=np.float64).reshape(-1)
+                    v = np.asarray(v, dtype=np.float64).reshape(-1)
+                    old = np.asarray(la[t], dtype=np.float64).reshape(-1)
+                    oldv = np.asarray(va[t], dtype=np.float64).reshape(-1)
+                    if lp.shape != old.shape or np.abs(lp - old).max() > 1e-4 * max(1.0, np.abs(old).max()):
+                        e = int(np.argmax(np.abs(lp - old))) if lp.shape == old.shape else 0
+                        first("[loop-logprob]",
+                              f"agent {a} step {t} env {e}: the stored old log-prob is {old[e] if old.size > e else old}, "
+                              f"but the policy that collected the rollout gives the STORED action "
+                              f"{act.reshape(E, -1)[e].tolist()} at the stored observation log-prob "
+                              f"{lp[e] if lp.size > e else lp} (the environment received "
+                              f"{np.asarray(recv).reshape(E, -1)[e].tolist()}; action space {lc['akind']})")
+                    if v.shape != oldv.shape or np.abs(v - oldv).max() > 1e-4 * max(1.0, np.abs(oldv).max()):
+                        first("[loop-inputs]", f"agent {a} step {t}: the stored values {oldv.tolist()} are not the critic's "
+                              f"values {v.tolist()} of the stored observations")
+    return problems, stats
+
+
+def _build_loop_agent(lc, env):
+    import agents
+    T, E, ids = lc["T"], lc["E"], lc["ids"]
+    g, l = float(Fr(lc["gamma"])), float(Fr(lc["lam"]))
+    akind = lc.get("akind", "discrete")
+    agents.seed_all(lc["seed"])
+    if lc["algo"] == "PPO":
+        from agilerl.algorithms import PPO
+        nc = copy.deepcopy(agents.default_net_config("PPO", "vector"))
+        if akind == "box-squash":
+            nc["squash_output"] = True
+        return PPO(env.single_observation_space, env.single_action_space, index=0, net_config=nc, batch_size=16,
+                   device="cpu", accelerator=None, learn_step=T * E, update_epochs=1, share_encoders=lc["share"],
+                   gamma=g, gae_lambda=l)
+    from agilerl.algorithms import IPPO
+    return IPPO(observation_spaces=[env.observation_space(a) for a in ids],
+                action_spaces=[env.action_space(a) for a in ids], agent_ids=list(ids),
+                net_config=agents.default_net_config("IPPO", "vector"), batch_size=16, device="cpu",
+                accelerator=None, learn_step=T * E, update_epochs=1, gamma=g, gae_lambda=l)
+
+
 def run_loop_case(chk: Check, lc):
     """returns dict(problems, diff, impl, model, tags, rollouts)"""
     import contextlib
     import io
-    import agents
     vh = hooks()
+    lc = {"akind": "discrete", "stagger": False, **lc}     # cases written before these fields existed
     out = {"problems": [], "diff": None, "impl": [], "model": [], "tags": [], "rollouts": 0, "raised": None,
-           "claims": 0}
+           "claims": 0, "skipped": None}
     T, E, R, ids = lc["T"], lc["E"], lc["R"], lc["ids"]
-    g, l = float(Fr(lc["gamma"])), float(Fr(lc["lam"]))
+    akind = lc.get("akind", "discrete")
     grp = _loop_groups(lc)
-    agents.seed_all(lc["seed"])
     if lc["algo"] == "PPO":
         from agilerl.training.train_on_policy import train_on_policy as train
-        env = ScriptVecEnv(lc["schedules"])
-        agent = agents.build("PPO", "vector", seed=lc["seed"], share_encoders=lc["share"], action_kind="discrete",
-                             gamma=g, gae_lambda=l, batch_size=16, update_epochs=1, learn_step=T * E)
+        env = ScriptVecEnv(lc["schedules"], akind)
     else:
-        from agilerl.algorithms import IPPO
         from agilerl.training.train_multi_agent_on_policy import train_multi_agent_on_policy as train
-        env = ScriptParallelEnv(ids, lc["schedules"], lc["vec"])
-        agent = IPPO(observation_spaces=[env.observation_space(a) for a in ids],
-                     action_spaces=[env.action_space(a) for a in ids], agent_ids=list(ids),
-                     net_config=agents.default_net_config("IPPO", "vector"), batch_size=16, device="cpu",
-                     accelerator=None, learn_step=T * E, update_epochs=1, gamma=g, gae_lambda=l)
+        env = ScriptParallelEnv(ids, lc["schedules"], lc["vec"], akind)
+    agent = _build_loop_agent(lc, env)
+    if akind == "box-squash":
+        # the loops hand the numpy action of get_action to actor.scale_action; a tree in which that raises
+        # cannot train a squashed policy at all (a defect of its own, fixes/C17-scale-action-numpy.diff)
+        try:
+            agent.actor.scale_action(np.zeros((1, 2), dtype=np.float32))
+        except TypeError as e:
+            out["skipped"] = f"StochasticActor.scale_action rejects the numpy action the training loop passes ({e})"
+            out["tags"] = ["loop-squash-unavailable"]
+            return out
     calls: list[dict] = []
     orig_learn = agent.learn
     pre = "ppo" if lc["algo"] == "PPO" else "ippo"
 
     def spy(experiences):
-        call = {"end": len(env.log), "twin": None, "claims": []}
+        call = {"end": len(env.log), "twin": None, "claims": [], "pre": [], "stats": {}}
         calls.append(call)
         n_steps = len(experiences[3]) if lc["algo"] == "PPO" else len(next(iter(experiences[3].values())))
         start = call["end"] - n_steps
         if start >= 0:
-            # no-leak: an identical twin learns from the same rollout with everything after the TRUE
-            # episode boundaries replaced; RNG streams are preserved so that training is not disturbed
+            # everything here leaves the RNG streams and the agent as they were, so that training is not disturbed
             rs = (random.getstate(), np.random.get_state(), torch.get_rng_state())
             mark = len(vh.RECORDS)
             try:
+                call["pre"], call["stats"] = _reevaluate(lc, agent, experiences, env, start, n_steps)
+                # no-leak: an identical twin learns from the same rollout with everything after the TRUE
+                # boundaries of every (agent, env) column replaced
                 pert, claims = _perturb_loop_experiences(lc, experiences, env, start, n_steps)
                 if claims:
                     twin = agent.clone(wrap=False)
@@ -1100,11 +1282,12 @@ def run_loop_case(chk: Check, lc):
                     call["claims"] = claims
             except InfraError:
                 raise
-            except Exception as e:                        # noqa: BLE001 - the twin is best effort
-                call["twin_error"] = f"{type(e).__name__}: {str(e)[:120]}"
+            except Exception as e:                        # noqa: BLE001 - the side computations are best effort
+                call["twin_error"] = f"{type(e).__name__}: {str(e)[:160]}"
                 del vh.RECORDS[mark:]
             finally:
                 random.setstate(rs[0]), np.random.set_state(rs[1]), torch.set_rng_state(rs[2])
+                agent.set_training_mode(True)
         call["mark"] = len(vh.RECORDS)
         res = orig_learn(experiences)
         call["gae"] = [r for t_, r in vh.RECORDS[call["mark"]:] if t_ == pre + ".gae"]
@@ -1122,7 +1305,7 @@ def run_loop_case(chk: Check, lc):
     except Exception as e:                                # noqa: BLE001 - the training loop raised
         out["raised"] = f"{type(e).__name__}: {str(e)[:200]}"
         out["problems"].append(f"[raised] {train.__name__} raised on a scripted {'vectorised' if lc['vec'] else 'plain'} "
-                               f"env ({lc['algo']}, T={T}, envs={E}): {out['raised']}")
+                               f"env ({lc['algo']}, T={T}, envs={E}, actions {akind}): {out['raised']}")
         return out
     finally:
         vh.clear()
@@ -1136,10 +1319,16 @@ def run_loop_case(chk: Check, lc):
     out["rollouts"] = len(calls)
     gamma, lam = Fr(lc["gamma"]), Fr(lc["lam"])
     ops, impl = [], []
+    clipped = samples = 0
     for ci, call in enumerate(calls):
         if len(call.get("gae", [])) != len(grp):
             raise InfraError(f"recorder produced {len(call.get('gae', []))} '{pre}.gae' records for {len(grp)} policy "
                              "group(s) in a training-loop learn() call: hook call sites missing")
+        for p in call["pre"]:
+            kind, _, rest = p.partition(" ")
+            out["problems"].append(f"{kind} rollout {ci} ({lc['algo']}, {'vectorised' if lc['vec'] else 'plain'} env): {rest}")
+        clipped += call["stats"].get("clipped", 0)
+        samples += call["stats"].get("samples", 0)
         for gi, (gid, members) in enumerate(grp):
             rec = call["gae"][gi]
             A = len(members)
@@ -1162,7 +1351,7 @@ def run_loop_case(chk: Check, lc):
             ndt = [0] * C
             for c in range(C):
                 a, e = members[c // E], c % E
-                k, ended = _truth(env, start, T, e)
+                _, flags = _truth(env, start, T, a, e)
                 for t in range(T):
                     want = env.log[start + t]["reward"][a][e]
                     if abs(R_[t][c] - want) > 1e-6:
@@ -1170,21 +1359,26 @@ def run_loop_case(chk: Check, lc):
                                                f"{R_[t][c]}, the environment paid {want} at that step")
                         break
                 for t in range(1, T):
-                    dt[t][c] = int(ended[t - 1])
+                    dt[t][c] = flags[t - 1]
                     if int(D_[t][c]) != dt[t][c]:
-                        kind = "termination" if env.log[start + t - 1]["term"][e] and not env.log[start + t - 1]["trunc"][e] \
-                            else ("truncation" if not env.log[start + t - 1]["term"][e] else "termination+truncation")
+                        x = env.log[start + t - 1]
+                        kind = "terminated" if x["term"][a][e] and not x["trunc"][a][e] \
+                            else ("truncated" if x["trunc"][a][e] and not x["term"][a][e] else "terminated+truncated")
+                        mates = [b for b in members if b != a and not x["done"][b][e]]
                         out["problems"].append(
                             f"[loop-flags] {where}: agent {a} env {e}: " +
-                            (f"the episode ended at step {t - 1} by {kind}, so step {t} is the first step of a new "
-                             f"episode, but dones[{t}] = {int(D_[t][c])}" if dt[t][c] else
-                             f"no episode ended at step {t - 1} but dones[{t}] = {int(D_[t][c])}"))
+                            (f"the environment reported the agent {kind} at step {t - 1}"
+                             + (f" (its team-mates {mates} were still running)" if mates else "")
+                             + f", so step {t} does not continue that episode, but dones[{t}] = {int(D_[t][c])}"
+                             if dt[t][c] else
+                             f"the environment did not report the agent done at step {t - 1} but dones[{t}] = "
+                             f"{int(D_[t][c])}"))
                         break
-                ndt[c] = int(ended[T - 1])
+                ndt[c] = flags[T - 1]
                 if int(ND_[c]) != ndt[c]:
                     out["problems"].append(f"[loop-flags] {where}: agent {a} env {e}: next_done = {int(ND_[c])} but the "
-                                           f"episode {'ended' if ndt[c] else 'did not end'} on the last step of the rollout")
-            # the recursion with the TRUE boundaries, on the recorded rewards/values/bootstrap
+                                           f"environment reported done = {ndt[c]} for it on the last step of the rollout")
+            # the recursion with the TRUE flags, on the recorded rewards/values/bootstrap
             bad = None
             for c in range(C):
                 a_, r_, _ = gae_column(gamma, lam, [fr_of(R_[t][c]) for t in range(T)],
@@ -1207,28 +1401,35 @@ def run_loop_case(chk: Check, lc):
             if call.get("twin") and len(call["twin"]) == len(grp):
                 ADV2 = m(call["twin"][gi]["advantages"])
                 RET2 = m(call["twin"][gi]["returns"])
-                for e, k in call["claims"]:
+                for a, e, k in call["claims"]:
+                    if a not in members:
+                        continue
                     out["claims"] += 1
-                    for ai in range(A):
-                        c = ai * E + e
-                        hit = [t for t in range(k) if ADV[t][c] != ADV2[t][c] or RET[t][c] != RET2[t][c]]
-                        if hit:
-                            out["problems"].append(
-                                f"[leak] {where}: agent {members[ai]} env {e}: a new episode starts at step {k}"
-                                f"{' (the rollout ends with the episode)' if k == T else ''}; replacing only rewards/values "
-                                f"from step {k} on and the final next observation changed the advantage at step {hit[0]}: "
-                                f"{ADV[hit[0]][c]} -> {ADV2[hit[0]][c]}")
-                            break
+                    c = members.index(a) * E + e
+                    hit = [t for t in range(k) if ADV[t][c] != ADV2[t][c] or RET[t][c] != RET2[t][c]]
+                    if hit:
+                        out["problems"].append(
+                            f"[leak] {where}: agent {a} env {e}: the environment reported it done at step {k - 1}"
+                            f"{' (the last step of the rollout)' if k == T else ''}; replacing only its rewards/values "
+                            f"from step {k} on and the final next observation changed its advantage at step {hit[0]}: "
+                            f"{ADV[hit[0]][c]} -> {ADV2[hit[0]][c]}")
             # coverage tags
-            for e in range(E):
-                for t in range(T):
-                    x = env.log[start + t]
-                    if x["ended"][e]:
-                        kind = "both" if x["term"][e] and x["trunc"][e] else ("term" if x["term"][e] else "trunc")
-                        out["tags"].append(f"loop-end-{kind}-{'last-step' if t == T - 1 else 'inside'}")
+            for a in members:
+                for e in range(E):
+                    for t in range(T):
+                        x = env.log[start + t]
+                        if x["done"][a][e]:
+                            kind = "both" if x["term"][a][e] and x["trunc"][a][e] else ("term" if x["term"][a][e] else "trunc")
+                            out["tags"].append(f"loop-end-{kind}-{'last-step' if t == T - 1 else 'inside'}")
+                            if not x["over"][e]:
+                                out["tags"].append("loop-agent-done-before-team-mates")
     if getattr(env, "stepped_after_end", 0):
         out["problems"].append(f"[loop-flags] the plain environment was stepped {env.stepped_after_end} time(s) after an "
                                "episode had ended without being reset")
+    out["tags"].append(f"loop-act-{akind}")
+    if akind != "discrete":
+        out["tags"].append("loop-clipping-active" if clipped else "loop-clipping-inactive")
+        out["clipped"] = f"{clipped}/{samples}"
     twin_errors = sorted({c["twin_error"] for c in calls if c.get("twin_error")})
     if twin_errors:
         out["tags"].append("loop-twin-unavailable")
@@ -1242,14 +1443,20 @@ def run_loop_case(chk: Check, lc):
 
 
 def loop_cases(rng: random.Random, tier: str):
-    cases = [gen_loop_case(rng, "PPO", True, 5, 3, 3), gen_loop_case(rng, "PPO", True, 4, 2, 3),
-             gen_loop_case(rng, "IPPO", True, 4, 2, 3, ID_SETS[1]), gen_loop_case(rng, "IPPO", True, 5, 2, 2, ID_SETS[4]),
-             gen_loop_case(rng, "IPPO", False, 6, 1, 3, ID_SETS[1]), gen_loop_case(rng, "IPPO", False, 5, 1, 3, ID_SETS[5])]
+    G = gen_loop_case
+    cases = [G(rng, "PPO", True, 5, 3, 3, akind="box-clip"), G(rng, "PPO", True, 4, 2, 3, akind="discrete"),
+             G(rng, "PPO", True, 4, 2, 2, akind="box-squash"),
+             G(rng, "IPPO", True, 4, 2, 3, ID_SETS[1], akind="box-clip", stagger=True),
+             G(rng, "IPPO", True, 5, 2, 2, ID_SETS[4], akind="discrete", stagger=True),
+             G(rng, "IPPO", False, 6, 1, 3, ID_SETS[1], akind="discrete", stagger=True),
+             G(rng, "IPPO", False, 5, 1, 3, ID_SETS[5], akind="box-clip", stagger=False),
+             G(rng, "IPPO", False, 6, 1, 2, ID_SETS[2], akind="box-clip", stagger=True)]
     for _ in range(4 if tier == "quick" else 60):
         algo = rng.choice(["PPO", "IPPO", "IPPO"])
         vec = True if algo == "PPO" else rng.random() < 0.5
-        cases.append(gen_loop_case(rng, algo, vec, rng.randint(3, 6), rng.randint(1, 3) if vec else 1,
-                                   rng.randint(2, 3), rng.choice(ID_SETS[:6] + UNSORTED_ID_SETS[:2])))
+        akind = rng.choice(["discrete", "box-clip", "box-squash"] if algo == "PPO" else ["discrete", "box-clip"])
+        cases.append(G(rng, algo, vec, rng.randint(3, 6), rng.randint(1, 3) if vec else 1, rng.randint(2, 3),
+                       rng.choice(ID_SETS[:6] + UNSORTED_ID_SETS[:2]), akind=akind, stagger=rng.random() < 0.7))
     return cases
 
 
@@ -1276,19 +1483,22 @@ def run_loop_suite(chk: Check, rng: random.Random, seen_kinds: set, corpus=()):
         o = run_loop_case(chk, lc)
         ends = [t for t in o["tags"] if t.startswith("loop-end")]
         chk.case(lc, nontrivial=bool(ends),
-                 sample={k: lc[k] for k in ("suite", "algo", "vec", "T", "E", "R", "ids", "gamma", "lam")} |
+                 sample={k: lc.get(k) for k in ("suite", "algo", "vec", "T", "E", "R", "ids", "gamma", "lam", "akind", "stagger")} |
                         {"schedules": [s[:4] for s in lc["schedules"]]},
                  tags=[f"loop-{lc['algo']}-{'vec' if lc['vec'] else 'plain'}", "loop-case"] + o["tags"]
                       + (["loop-no-leak-claims"] if o["claims"] else []))
         n[lc["algo"]][0] += 1
+        if o.get("skipped"):
+            notes.add(f"loop suite: squash_output cases skipped on this tree: {o['skipped']}")
+            continue
         for te in o.get("twin_errors", []):
-            notes.add(f"loop suite: no-leak twin unavailable ({te})")
+            notes.add(f"loop suite: re-evaluation / no-leak twin unavailable ({te})")
         if o["diff"] is None and not o["problems"]:
             continue
         n[lc["algo"]][1] += o["diff"] is not None
         kind = kind_of(o["problems"][0]) if o["problems"] else "[loop-diff"
         small, o2 = lc, o
-        if o["problems"] and kind not in seen_kinds and len(seen_kinds) < 6:
+        if o["problems"] and kind not in seen_kinds and len(seen_kinds) < 7:
             seen_kinds.add(kind)
             try:
                 cand = shrink_loop(chk, lc, kind)
@@ -1335,6 +1545,14 @@ def structured_cases(rng: random.Random, tier: str):
         c = gen_case(rng, "PPO", T, E, None, exact=True)
         c["okind"] = okind
         cases.append(c)
+    # … gamma / lambda changed AFTER construction, by every route, for both algorithms
+    for route in HP_ROUTES:
+        for algo, ids in (("IPPO", ID_SETS[1]), ("PPO", None)):
+            c = gen_case(rng, algo, 3, 2, ids, exact=True)
+            c["hp_route"] = route
+            if c["gamma"] in ("0", "1") or c["lam"] in ("0", "1"):
+                c["gamma"], c["lam"] = "1/2", "3/4"
+            cases.append(c)
     n_rand = 200 if tier == "quick" else 2000
     for _ in range(n_rand):
         algo = "IPPO" if rng.random() < 0.6 else "PPO"
@@ -1358,11 +1576,17 @@ def run(chk: Check) -> None:
                 "homogeneous groups in several dict orders (interleaved with other groups, listed in NON-lexicographic order "
                 "within a group, and eleven agents agent_0..agent_10 sharing one policy), PPO observations flat Box or Dict/Tuple with a Discrete member (every member "
                 "decoded), episode boundaries at the first/last step, in next_done, "
-                "per column; gamma, lambda dyadic (exact diff) or 0.99/0.95-like with the real critic (toleranced); "
+                "per column; gamma, lambda dyadic (exact diff) or 0.99/0.95-like with the real critic (toleranced), given to the "
+                "constructor or changed afterwards (setattr / clone / checkpoint round trip / RL-hp mutation) and always "
+                "compared with the recursion over the agent's CURRENT values; "
                 "distinct = distinct case dictionaries; non-trivial = an episode boundary inside the rollout/next_done "
                 "or more than one agent sharing a policy; loop suite: the real train_on_policy (PPO, scripted vector env) "
                 "and train_multi_agent_on_policy (IPPO, scripted vectorised and plain parallel envs) for 2-3 rollouts, "
-                "episodes ending by termination / truncation only / both, inside rollouts and on their last step; every "
+                "Discrete and Box action spaces (bounds that clip nearly every sample; squash_output with bounds [-2,3] "
+                "where the tree can train it), agents of a sub-environment done at different steps; "
+                "episodes ending by termination / truncation only / both, inside rollouts and on their last step; before "
+                "every learn() call the stored old log-probs and values are re-evaluated under the collecting policy for "
+                "the STORED action/observation and the stored observations are held against what the environment emitted; every "
                 "learn() call's recorded rewards, dones, next_done are held against the environment's own episode log, "
                 "the recursion is recomputed over the true boundaries, and an identical twin agent learns from the same "
                 "rollout with everything after the true boundaries replaced (no-leak)")
@@ -1578,6 +1802,29 @@ def selftest(chk: Check) -> None:
         raise InfraError(f"C17 self-test: a Discrete observation member flattened time-major was not noticed ({hits})")
     chk.notes.append("self-test: PPO Dict/Tuple observation with a scalar member flattened time-major detected")
 
+    # gamma * lambda cached at construction: invisible unless gamma / lambda change afterwards
+    f = _patched_method(ippo_mod.IPPO, "_learn_individual", "self.gamma * self.gae_lambda * next_non_terminal",
+                        f"{HP_DECOY[0] * HP_DECOY[1]!r} * next_non_terminal")
+    if f is None:
+        chk.notes.append("self-test: fault 'cached gamma*lambda' not applicable to the source of IPPO._learn_individual")
+    else:
+        hp_probes = []
+        for route in ("setattr", "clone", "checkpoint"):
+            c = gen_case(rng, "IPPO", 3, 2, ID_SETS[1], exact=True)
+            c["hp_route"], c["gamma"], c["lam"] = route, "1/2", "3/4"
+            hp_probes.append(c)
+        orig_m = ippo_mod.IPPO._learn_individual
+        ippo_mod.IPPO._learn_individual = f
+        try:
+            hits = [bool(o["problems"]) or o["diff"] is not None
+                    for o in (one_case(chk, c, random.Random(5)) for c in hp_probes)]
+        finally:
+            ippo_mod.IPPO._learn_individual = orig_m
+        if not all(hits):
+            raise InfraError(f"C17 self-test: a gamma*lambda product frozen at construction was not noticed ({hits})")
+        chk.notes.append("self-test: IPPO recursion with gamma*lambda frozen at construction detected "
+                         "(gamma / lambda changed by setattr, clone, checkpoint)")
+
     # training loops: the flag stored one step late loses truncations / is cleared when a plain env is reset
     import agilerl.training.train_multi_agent_on_policy as tma
     import agilerl.training.train_on_policy as top
@@ -1589,6 +1836,14 @@ def selftest(chk: Check) -> None:
          "obs, info = env.reset()\n                                done = {a_: np.zeros(num_envs) for a_ in agent.agent_ids}\n",
          gen_loop_case(lrng, "IPPO", False, 6, 1, 2, ID_SETS[1]),
          "train_multi_agent_on_policy clears done when it resets a plain env"),
+        (top, "train_on_policy", "actions.append(action)", "actions.append(clipped_action)",
+         gen_loop_case(lrng, "PPO", True, 4, 2, 2, akind="box-clip"),
+         "train_on_policy stores the clipped action with the log-prob of the raw sample"),
+        (tma, "train_multi_agent_on_policy", "next_done[agent_id] = np.logical_or(",
+         "next_done[agent_id] = (lambda *_: np.all([np.logical_or(termination[a_], truncation[a_]) "
+         "for a_ in agent.agent_ids], axis=0))(",
+         gen_loop_case(lrng, "IPPO", True, 5, 2, 2, ID_SETS[1], stagger=True),
+         "train_multi_agent_on_policy stores one shared all-agents-done flag for every agent"),
     ]
     n_loop = 0
     for mod, name, old, new, lc, what in loop_faults:
